@@ -163,8 +163,21 @@ def run(seed, tier, lean) -> Result:
         keep = {}
         done, v = guarded(res, check_case, spec, inst, mo, res, churn_seed=cs, keep=keep)
         if not done:
-            v = nonterminating(spec, inst, res)
-            if v: res.violations.append(v); break
+            v = nonterminating(spec, inst, res, limit=20)
+            if v:
+                # Time cannot tell "does not terminate" from "terminates after 2^(2^n) steps", and the unchanged evaluator
+                # has such cases even on ONE asset (a self-linked asset lists its association twice, so every hop doubles
+                # the targets, and a subtype filter re-evaluates its operand once per target).  Termination on every finite
+                # model is a THEOREM about the translated evaluator (eval_terminates / closure_correct through the tie);
+                # while that tie checks against the current source a slow case is only counted.  If the evaluator was
+                # changed so that the theorem no longer checks AND a case does not finish, termination is shown by neither
+                # side any more: reported, with the input, as no-failing-input-found.
+                tie = (lean.get('tie') or {}).get('status')
+                if tie in ('broken', 'untranslatable'):
+                    v.no_failing_input = True
+                    v.what += f'; the termination theorem of the translated evaluator no longer checks against the current source (tie {tie})'
+                    res.violations.append(v); break
+                res.bump('timed-out case that is also slow on a thinned sub-model (duplicates doubling per hop: slow, not wrong)')
             continue
         if v is None and model is not None and 'im' in keep: third.append((spec, inst, keep['im'], {'_replay': {'churn_seed': cs}}))
         ops = set()
